@@ -63,6 +63,6 @@ def check(ctx):
         ctx.exhaustive_parts.append('real code: every length 0..200 x every worker count 1..16 (3216 pairs), three repetitions each')
     return ctx.finish(
         rule='cases: every (length 0..200, worker count 1..16) pair on integer data (x3 data seeds in thorough), each followed by the ALIASED call x.dot_f64(&x) / x.dot(&x) on the same object (exact sum of squares; bit-identical to the two-object call x.dot_f64(&x.clone()), also on float data); per worker count ~11-39 lengths around the worker count each under busy-loop load, under a narrower affinity '
-             'than at the first call, and with general float data; random lengths up to 10^5; overflowing sums of strictly positive finite data (every product finite, two or more of about 1e308, placed everywhere / in the first / middle / last chunk only / one at each end so that only the total overflows; x = y and x != y) for every worker count: three repetitions, sequential dot and aliased calls must all be +inf bit for bit. Signed-zero families on exact data (all products -0.0 / all +0.0 / mixed / one non-zero product among them, zeros on either operand) for every worker count: repetitions, dot and aliased calls compared as bit patterns with +0.0 (or the one product). Thread shortage: child processes whose address space is limited to the current size + 1/3/5/9/17 MiB (everything pre-allocated before, limit restored after) call dot_f64 twice; a child that dies gives no event and no verdict; demanded: a value that is returned equals the sequential product bit for bit (a panic returns no value). One event per run. distinct = distinct (kind, length, observed worker count, mode, phase, bit pattern).',
+             'than at the first call, and with general float data; random lengths up to 10^5; overflowing sums of strictly positive finite data (every product finite, two or more of about 1e308, placed everywhere / in the first / middle / last chunk only / one at each end so that only the total overflows; x = y and x != y) for every worker count: three repetitions, sequential dot and aliased calls must all be +inf bit for bit. Signed-zero families on exact data (all products -0.0 / all +0.0 / mixed / one non-zero product among them, zeros on either operand) for every worker count: repetitions, dot and aliased calls compared as bit patterns with +0.0 (or the one product). Thread shortage: child processes whose address space is limited to the current size + 1/3/5/9/17 MiB (everything pre-allocated before, limit restored after) call dot_f64 twice; a child that dies gives no event and no verdict; demanded: a value that is returned equals the sequential product bit for bit (a panic returns no value). Long range: exact integer data at lengths w*B*k and w*B*k -+ 1 (B in {2^j, 3*2^j, 5*2^j} up to 2^17, k in 1..3, every worker count w; seeded sample in quick, full grid up to 2^22 elements in thorough) bit-identical to the exact value; vectors of 2^20, 2^21, 3*2^20 general elements at 2/3/7/16 workers called 30-50 times must give ONE bit pattern. One event per run. distinct = distinct (kind, length, observed worker count, mode, phase, bit pattern).',
         trusted=['num_cpus::get() observed in-process = worker count used by the call', 'harness projection of f64 to bit pattern and integer', 'TLC', 'double-double reference (general data only)'],
         extra=dict(pairs_covered=full, cpus_available=avail))
